@@ -299,4 +299,61 @@ example : (run (init [0, 2]) [.report, .reload [1], .report]).sources = [(1, 1)]
 
 end NullOut
 
+/-! ## mrt-file-in -/
+namespace Mrt
+
+/-- Full clause (i)+(ii): the files read are those of the start configuration followed by the reference output —
+    a queue request is resolved in the `update_path` in force, a file newly listed in `filename` is read once. -/
+def Mrt_adopted_full (v : Variant) : Prop :=
+  ∀ (c : Cfg) (es : List Ev), (run v (init c) es).processed = c.files.map (none, ·) ++ spec c es
+
+/-- As written: a file added to `filename` is never read … -/
+theorem Mrt_adopted_counterexample_filename : ¬ Mrt_adopted_full asWritten := by
+  intro h
+  have := h ⟨[0], some 0⟩ [.reload ⟨[0, 2], some 0⟩]
+  revert this
+  decide
+
+/-- … and a queue request after `update_path` changed is still resolved in the old directory. -/
+theorem Mrt_adopted_counterexample_update_path : ¬ Mrt_adopted_full asWritten := by
+  intro h
+  have := h ⟨[0], some 0⟩ [.reload ⟨[0], some 1⟩, .api 1]
+  revert this
+  decide
+
+/-- As written, every history: reloads are invisible — the endpoint keeps the directory it was built with. -/
+theorem Mrt_asWritten_frozen (c : Cfg) (es : List Ev) :
+    (run asWritten (init c) es).processed = c.files.map (none, ·) ++ frozen c.updir es := by
+  simpa [init] using run_asWritten asWritten rfl (init c) es
+
+/-- Guarded partial: if every reload carries the configuration in force (both settings the code ignores are
+    unchanged) the clause holds as written; in particular (iii) an identical reload is a no-op. -/
+theorem Mrt_adopted_partial (c : Cfg) (es : List Ev) (h : onlyIdentical c es) :
+    (run asWritten (init c) es).processed = c.files.map (none, ·) ++ spec c es := by
+  rw [Mrt_asWritten_frozen, spec_eq_frozen c es h]
+
+example : onlyIdentical ⟨[0], some 0⟩ [.api 1, .reload ⟨[0], some 0⟩, .api 2] := ⟨rfl, trivial⟩
+
+/-- Repaired: the full clause for every history. -/
+theorem Mrt_adopted_repaired : Mrt_adopted_full repaired := by
+  intro c es
+  simpa [init] using run_repaired repaired rfl (init c) rfl es
+
+example : (run repaired (init ⟨[0], some 0⟩) [.reload ⟨[0, 2], some 1⟩, .api 1]).processed = [(none, 0), (none, 2), (some 1, 1)] := by decide
+
+/-- (ii) What has been read stays read, in order (any variant, any state): a Reconfigure never re-reads or drops. -/
+theorem Mrt_processed_kept (v : Variant) (s : St) (es : List Ev) : s.processed <+: (run v s es).processed := by
+  induction es generalizing s with
+  | nil => exact List.prefix_refl _
+  | cons e es ih => exact List.IsPrefix.trans (step_processed_prefix v s e) (ih (step v s e).1)
+
+/-- (iii) A reload of the configuration in force changes nothing (any variant). -/
+theorem Mrt_identical_noop (v : Variant) (s : St) (hs : s.apidir = s.cfg.updir) :
+    (step v s (.reload s.cfg)).1 = s := by
+  cases hv : v.mrt
+  · simp [step, hv]
+  · simp only [step, hv, filter_not_contains_self, List.map_nil, List.append_nil, ← hs]
+
+end Mrt
+
 end Rotonda.ReconfUnits
